@@ -41,11 +41,25 @@ end Base
 namespace Bnd
 def KInv (s : Bnd α) : Prop := s.cur < s.b.wins.length ∧ ClosedB s.b [s.cur]
 
-theorem kinv_init (t0 : Nat) : KInv (Bnd.init (α := α) t0) := by
-  refine ⟨by simp [init, Base.newWin], ?_⟩
-  intro id hid
-  simp [init, Base.newWin] at hid
-  left; simp [init, Base.newWin, hid]
+theorem kinv_init (t0 : Nat) (bsync : Option (Notif Unit) := none) : KInv (Bnd.init (α := α) t0 bsync) := by
+  have hbase : KInv ({ b := (({ now := t0 } : Base α).newWin.1.outerNext ({ now := t0 } : Base α).newWin.2).subscribe 0,
+                       cur := ({ now := t0 } : Base α).newWin.2 } : Bnd α) := by
+    refine ⟨by simp [Base.newWin], ?_⟩
+    intro id hid
+    simp [Base.newWin] at hid
+    left; simp [Base.newWin, hid]
+  cases bsync with
+  | none =>
+    exact ⟨by simpa [init] using hbase.1, Base.closed_frame (by simp [init]) (fun id hh => by simpa [init] using hh) hbase.2⟩
+  | some n =>
+    cases n with
+    | next u => exact ⟨by simp [init, onBoundary], Base.closed_roll _ _ none hbase.1 hbase.2⟩
+    | error e =>
+      exact ⟨by simpa [init, onEnd] using hbase.1, Base.closed_frame (by simp [init, onEnd])
+        (fun id hh => by simp only [init, onEnd, Base.endedOf_outerEnd]; exact Base.endedOf_winEnd_mono _ _ _ _ hh) hbase.2⟩
+    | completed =>
+      exact ⟨by simpa [init, onEnd] using hbase.1, Base.closed_frame (by simp [init, onEnd])
+        (fun id hh => by simp only [init, onEnd, Base.endedOf_outerEnd]; exact Base.endedOf_winEnd_mono _ _ _ _ hh) hbase.2⟩
 
 theorem kinv_step (s : Bnd α) (t : Nat) (e : Ev α) (h : KInv s) : KInv (Bnd.mach.step s t e) := by
   have h' : KInv ({ s with b := { s.b with now := t } } : Bnd α) := h
@@ -80,32 +94,46 @@ variable {α : Type}
 namespace Whn
 def KInv (s : Whn α) : Prop := s.cur < s.b.wins.length ∧ ClosedB s.b [s.cur]
 
-theorem createClosing_cur (r : Option Nat) (pool : Nat) (s : Whn α) : (createClosing r pool s).cur = s.cur := by
-  unfold createClosing; simp only []; split <;> rfl
-theorem createClosing_len (r : Option Nat) (pool : Nat) (s : Whn α) : (createClosing r pool s).b.wins.length = s.b.wins.length := by
-  unfold createClosing; simp only []; split
-  · simp [onEnd]
-  · split <;> split <;> (try split) <;> simp
-theorem createClosing_mono (r : Option Nat) (pool : Nat) (s : Whn α) (id : Nat) (hh : (s.b.endedOf id).isSome = true) :
-    ((createClosing r pool s).b.endedOf id).isSome = true := by
-  unfold createClosing; simp only []; split
-  · simp only [onEnd, Base.endedOf_outerEnd]; exact Base.endedOf_winEnd_mono _ _ _ _ hh
-  · split <;> split <;> (try split) <;> simpa using hh
+theorem kinv_onEnd (s : Whn α) (e) (h : KInv s) : KInv (onEnd s e) :=
+  ⟨by simpa [onEnd] using h.1, Base.closed_frame (by simp [onEnd])
+    (fun id hh => by simp only [onEnd, Base.endedOf_outerEnd]; exact Base.endedOf_winEnd_mono _ _ _ _ hh) h.2⟩
+
+theorem kinv_setb (s : Whn α) (b' : Base α) (hl : b'.wins.length = s.b.wins.length)
+    (hm : ∀ id, (s.b.endedOf id).isSome = true → (b'.endedOf id).isSome = true) (h : KInv s) :
+    KInv ({ s with b := b' } : Whn α) :=
+  ⟨by show s.cur < b'.wins.length; rw [hl]; exact h.1, Base.closed_frame hl hm h.2⟩
+
+theorem kinv_createClosingF (r : Option Nat) (pool : Nat) (fuel : Nat) (s : Whn α) (h : KInv s) :
+    KInv (createClosingF r pool fuel s) := by
+  induction fuel generalizing s with
+  | zero => exact h
+  | succ fuel ih =>
+    have hc : KInv ({ s with calls := s.calls + 1 } : Whn α) := h
+    simp only [createClosingF]
+    split
+    · exact kinv_onEnd _ _ hc
+    · have h1 : KInv ({ s with calls := s.calls + 1, b := (if s.calls ≥ 1 then s.b.unsub s.calls else s.b) } : Whn α) := by
+        apply kinv_setb { s with calls := s.calls + 1 } _ _ _ hc
+        · split <;> simp
+        · intro id hh; split <;> simpa using hh
+      generalize (if s.calls ≥ 1 then s.b.unsub s.calls else s.b) = b1 at h1 ⊢
+      split
+      · apply ih
+        exact ⟨by simp, Base.closed_roll b1 s.cur none h1.1 h1.2⟩
+      · exact kinv_onEnd _ _ h1
+      · apply kinv_setb { s with calls := s.calls + 1, b := b1 } _ _ _ h1
+        · split <;> (try split) <;> simp
+        · intro id hh; split <;> (try split) <;> simpa using hh
 
 theorem kinv_createClosing (r : Option Nat) (pool : Nat) (s : Whn α) (h : KInv s) : KInv (createClosing r pool s) :=
-  ⟨by rw [createClosing_cur, createClosing_len]; exact h.1,
-   by rw [createClosing_cur]; exact Base.closed_frame (createClosing_len r pool s) (createClosing_mono r pool s) h.2⟩
+  kinv_createClosingF r pool _ s h
 
-theorem kinv_init (r : Option Nat) (pool t0 : Nat) : KInv (Whn.init (α := α) r pool t0) := by
+theorem kinv_init (r : Option Nat) (pool t0 : Nat) (sync : List (Option (Option Err)) := []) : KInv (Whn.init (α := α) r pool t0 sync) := by
   apply kinv_createClosing
   refine ⟨by simp [Base.newWin], ?_⟩
   intro id hid
   simp [Base.newWin] at hid
   left; simp [Base.newWin, hid]
-
-theorem kinv_onEnd (s : Whn α) (e) (h : KInv s) : KInv (onEnd s e) :=
-  ⟨by simpa [onEnd] using h.1, Base.closed_frame (by simp [onEnd])
-    (fun id hh => by simp only [onEnd, Base.endedOf_outerEnd]; exact Base.endedOf_winEnd_mono _ _ _ _ hh) h.2⟩
 
 theorem kinv_unsub (s : Whn α) (k) (h : KInv s) : KInv ({ s with b := s.b.unsub k } : Whn α) :=
   ⟨by simpa using h.1, Base.closed_frame (by simp) (fun id hh => by simpa using hh) h.2⟩
